@@ -19,7 +19,7 @@ ASSUMPTIONS = ["value form only for games that are stopping with zero-reward abs
                "scope with pruning: states reachable from state 0 in the conditioned game; without: all states",
                "band |rew - V| <= 1e-6*T_max(s) + 1e-9*max(1,|V|)"]
 TIMEOUT = 1800
-TABLE = [("G-ACY", 700), ("G-CYC", 700), ("G-SLOW", 200), ("G-DEAD", 700), ("G-LEX", 350), ("G-TIE", 200), ("G-TIEC", 200), ("G-TINYB", 400), ("G-RNEAR", 100), ("G-AUXFAST", 40), ("G-DUPL", 300), ("G-MIX", 500), ("G-SMALLX", 200), ("G-VSLOW", 6)]
+TABLE = [("G-ACY", 700), ("G-CYC", 700), ("G-SLOW", 200), ("G-DEAD", 700), ("G-LEX", 350), ("G-TIE", 200), ("G-TIEC", 200), ("G-TINYB", 400), ("G-RNEAR", 100), ("G-AUXFAST", 40), ("G-DUPL", 300), ("G-MIX", 500), ("G-SMALLX", 200), ("G-VSLOW", 3)]
 
 
 def plan(tier, seed):
@@ -80,7 +80,7 @@ def decide(gd, idx, cls, via_run_games=False):
                     problems.append({"problem": "run_games reports different rewards than solve()", "mode": "run_games"})
                 if outs[False].status == "ok" and rr["g_no_prune"]["rewards"] != outs[False].result[2]:
                     problems.append({"problem": "run_games (no prune) reports different rewards than solve()", "mode": "run_games"})
-    if idx % 3 == 0 and outs[True].status == "ok" and outs[False].status == "ok":
+    if idx % 3 == 0 and outs[True].status == "ok" and outs[False].status == "ok" and max(outs[True].result[5], outs[False].result[5]) < 20000:
         tad = monitors.mods()["tad"]
         desc = games.to_solver(gd)
         sg = tad.StochasticGame(desc["rewards"], desc["players"], desc["transition_list"], desc["final_states"], prune_states=True)
